@@ -232,7 +232,12 @@ class Reconcile:
 
                 if valf.root is not work_root:  # from different tree, need to verify first
                     try:
+                        child_values = child_parent.a.values
+
                         for i in range(start, end):
+                            if child_values[child_idx - start + i] is not values[i]:  # the other tree's Dict was changed after this node was taken from it, its index there means nothing now
+                                raise ValueError('moved')
+
                             if key := keys[i]:
                                 key.f.verify(reparse=False)
 
@@ -319,7 +324,12 @@ class Reconcile:
 
                 if childf.root is not work_root:  # from different tree, need to verify first
                     try:
+                        child_body = getattr(child_parent.a, child_field)
+
                         for i in range(start, end):
+                            if child_body[child_off_idx + i] is not body[i]:  # the other tree's list was changed after this node was taken from it, its index there means nothing now
+                                raise ValueError('moved')
+
                             body[i].f.verify(reparse=False)
 
                         slice = child_parent.get_slice(child_idx, child_off_idx + end, child_field,
@@ -463,6 +473,12 @@ class Reconcile:
         if not (nodef := getattr(node, 'f', None)) or nodef.root is not self.work:  # pure AST if no '.f' or FST from different tree
             if nodef:  # FST from different tree, need to verify it before using
                 try:
+                    if nodef_parent := nodef.parent:  # the other tree's AST may have been changed after this node was taken from it, make sure it is still where its FST says it is
+                        child = getattr(nodef_parent.a, (pf := nodef.pfield).name)
+
+                        if (child if (idx := pf.idx) is None else child[idx]) is not node:
+                            raise ValueError('moved')
+
                     copy = nodef.verify(reparse=False).copy(trivia=self.trivia_fst_get)
 
                     if not copy.verify(raise_=False):  # the AST under this node was changed after it was parsed (values, operators, child nodes), its source does not say what the AST says
